@@ -1,5 +1,5 @@
 (* C12 — the property theorems, and nothing else. *)
-From VF Require Import Idle.Model Idle.Spec Idle.Proofs.
+From VF Require Import Idle.Model Idle.Spec Idle.Proofs Idle.ProofsDirs.
 
 (* ---- IdleInvoker: for every interleaving of critical sections ------------ *)
 
@@ -96,4 +96,68 @@ Proof. vm_compute. reflexivity. Qed.
 
 Example unbalanced_panics :
   map snd (trace init [RelStart 0 true]) = [OPanic].
+Proof. vm_compute. reflexivity. Qed.
+
+(* ---- Directory creators Shared(Clean(Root)): for every operation sequence
+        and every failure script -------------------------------------------- *)
+
+(* The monitor evaluated on the real creator stack accepts every trace of
+   the model: a directory handed out is new, empty and not shared with an
+   open one; open directories are never removed by somebody else; Cleaner
+   runs happen exactly at the idle/busy transitions; no Get succeeds after
+   a failed clean; a closed directory is gone unless RemoveAll failed;
+   a failed Get leaves nothing behind unless Remove failed; the root is
+   empty after the last user left and the Cleaner succeeded. *)
+Theorem dirs_model_trace_ok : forall ops, dtrace_ok (dtrace dinit ops) = true.
+Proof. exact ProofsDirs.dirs_model_trace_ok. Qed.
+Print Assumptions dirs_model_trace_ok.
+
+Theorem dir_removed_on_every_path : forall s k f n,
+  slot_name (d_slots s) k = Some n -> cf_removeall f = false ->
+  has n (d_root (fst (fst (dstep s (DClose k f))))) = false.
+Proof. exact close_removes_model. Qed.
+Print Assumptions dir_removed_on_every_path.
+
+Theorem last_close_empties_root : forall s k f n,
+  slot_name (d_slots s) k = Some n -> d_users s = 1 -> cf_clean f = false ->
+  d_root (fst (fst (dstep s (DClose k f)))) = [].
+Proof. exact close_last_empties_model. Qed.
+Print Assumptions last_close_empties_root.
+
+Theorem failed_get_leaves_nothing : forall s k dig f s' code c,
+  dstep s (DGet k dig f) = (s', DErr code, c) ->
+  gf_enter f && gf_remove f = false ->
+  forall x, has x (d_root s') = true -> has x (d_root s) = true.
+Proof. exact failed_get_leaves_nothing_model. Qed.
+Print Assumptions failed_get_leaves_nothing.
+
+(* names_unique: counter-based names never repeat (strconv.FormatUint is
+   injective and the counter only grows).  Collision of a counter name with
+   a 16-hex-digit digest name needs a counter >= 10^15 and is answered by
+   Mkdir failing (no sharing) -- see docs/areas/Idle.md. *)
+Theorem names_unique : forall ops, NoDup (counter_names (dtrace dinit ops)).
+Proof. exact names_unique_model. Qed.
+Print Assumptions names_unique.
+
+(* released_once: the use count equals the number of open directories at
+   all times (every successful Get is released exactly once, by its Close;
+   every failed Get releases what it acquired), handles and names of open
+   directories are distinct and each open directory exists. *)
+Theorem released_once : forall ops,
+  let s := drun dinit ops in
+  d_users s = List.length (d_slots s) /\
+  NoDup (map fst (d_slots s)) /\ NoDup (map snd (d_slots s)) /\
+  forall e, In e (d_slots s) -> has (snd e) (d_root s) = true.
+Proof. exact released_once_model. Qed.
+Print Assumptions released_once.
+
+Example dirs_reach :
+  let f0 := mkGF false false false false false in
+  let s := drun dinit [DGet 0 None f0; DGet 1 (Some "aaaaaaaaaaaaaaaabbbb") f0; DWrite 0 "x";
+                       DClose 0 (mkCF false true false)] in
+  (d_root s, d_users s, d_counter s) = ([("1", ["x"]); ("aaaaaaaaaaaaaaaa", [])], 1, 1%N).
+Proof. vm_compute. reflexivity. Qed.
+
+Example dirs_failed_get_cleans_twice :
+  snd (dstep dinit (DGet 0 None (mkGF false true false false false))) = 2.
 Proof. vm_compute. reflexivity. Qed.
